@@ -157,8 +157,10 @@ CHECKS = {
              'parsed groups by exactly k and change nothing else (the parser is proved parametric in the numbering), and - for '
              'every text in which each paragraph has a field with a value - shift every recorded range of the WHOLE copyright '
              'object by exactly k, through renaming, merged unknown paragraphs and folded licenses, changing nothing else. NOT '
-             'proved as separate theorems: how ranges compose through merged unknown paragraphs and folded licenses (start of '
-             'the first, end of the last); decided by co-execution of the complete model (ranges included) '
+             'assembled into one statement: bounds and disjointness of the ranges of the FINAL object across merged and folded '
+             'paragraphs (the composition itself is proved: a merged paragraph spans the merged ones - smallest start, largest '
+             'end, both attained; a folded license runs from its License field, or the start of the unknown paragraph, to the '
+             'end of the unknown paragraph); decided by co-execution of the complete model (ranges included) '
              'with copyright.py on texts biased to the recovery paths, each also with 1/2/5 blank lines prepended, and by the '
              'executable statement (bounds, non-blank ends, words inside the range, disjoint and increasing, shift).',
         note=TRUST,
